@@ -103,6 +103,8 @@ type C13Op struct {
 	// puts stay common however long the history is.
 	Rel   bool
 	Delta int64
+	// StoreFault (put): the backend's read fails (plain error) during this put
+	StoreFault bool
 }
 
 type C13Sc struct {
@@ -133,6 +135,7 @@ func genC13(t *rapid.T) C13Sc {
 			op.CasMode = rapid.SampledFrom([]string{"none", "none", "stored", "other"}).Draw(t, "op.cas")
 			op.CasVal = genC13Seq(t, "op.casval")
 			op.Val = genC13Val(t, "op.val")
+			op.StoreFault = uniformInt(t, 10, "op.storefault") == 0
 		} else {
 			op.Kind = "get"
 			op.Via = rapid.SampledFrom([]string{"wire", "wire", "wrapper"}).Draw(t, "op.via")
@@ -230,6 +233,9 @@ func runC13a(sc C13Sc, c *kit.Case) *kit.Violation {
 				}
 				tseq++
 				tt := []byte(fmt.Sprintf("p%d", tseq))
+				if op.StoreFault {
+					sv.Store.FailNextGets(1)
+				}
 				outs, ok := sv.exchange(c, from, mkQuery(tt, "put", b44PutArgs(sender, key, salt, op.Seq, cas, encV, tok, nil)), true)
 				if !ok {
 					return nil
@@ -255,6 +261,9 @@ func runC13a(sc C13Sc, c *kit.Case) *kit.Violation {
 				var k32 [32]byte
 				copy(k32[:], key.pub)
 				var err error
+				if op.StoreFault {
+					sv.Store.FailNextGets(1)
+				}
 				if op.Via == "wrapper" {
 					err = wrapper.Put(&bep44.Item{V: v, K: k32, Salt: salt, Sig: sig, Cas: cas, Seq: op.Seq})
 				} else {
@@ -265,11 +274,29 @@ func runC13a(sc C13Sc, c *kit.Case) *kit.Violation {
 					accepted = true
 				} else {
 					code, ok := krpcCode(err)
-					if !ok {
+					if !ok && !op.StoreFault {
 						return kit.Violatef("C13:unexpected-error", "%s: returned %v", what, err)
 					}
 					gotCode = code
 				}
+			}
+			if op.StoreFault {
+				// The backend could not be read during this put. Refusing it (with whatever error) is always
+				// sound; acknowledging it is sound only if the put was acceptable against what is really stored.
+				sv.Store.FailNextGets(0)
+				c.Label("put-with-failing-store-read")
+				if accepted && !accept && !either {
+					return kit.Violatef("C13:put-accepted-against-rule-"+codesStr(codes), "%s: the store's read failed during this put; it must be refused with one of %s (or any error), was accepted", what, codesStr(codes))
+				}
+				if accepted && !either {
+					stored = &refmodel.Bep44Stored{Seq: op.Seq, V: encV}
+				}
+				if it, err := wrapper.Get(target); stored != nil && (err != nil || it.Seq != stored.Seq || string(mustBencode(it.V)) != stored.V) {
+					return kit.Violatef("C13:stored-version-wrong", "%s: the store's read failed during this put (accepted=%v); afterwards the store does not hold %s (err=%v)", what, accepted, describeStored(stored), err)
+				} else if stored == nil && err == nil {
+					return kit.Violatef("C13:stored-version-wrong", "%s: the store's read failed during this put; afterwards the store holds seq=%d although nothing was accepted", what, it.Seq)
+				}
+				continue
 			}
 			switch {
 			case either:
